@@ -35,6 +35,43 @@ type Op struct {
 	// CAS is put into the request header's CAS field (binary). rend ignores the field; it must not
 	// leak anywhere.
 	CAS uint64 `json:"cas,omitempty"`
+	// Seg: how the request's bytes reach the server (full-stack harnesses): "" in one piece, "h" the
+	// first 24 bytes (a binary header) then the rest, "1" the first byte then the rest, "b" byte by
+	// byte, "3" in 3-byte pieces, "l" everything but the last byte, then the last byte.
+	Seg string `json:"seg,omitempty"`
+}
+
+// Segments cuts b the way seg says.
+func Segments(b []byte, seg string) [][]byte {
+	cut := func(n int) [][]byte {
+		if n <= 0 || n >= len(b) {
+			return [][]byte{b}
+		}
+		return [][]byte{b[:n], b[n:]}
+	}
+	switch seg {
+	case "h":
+		return cut(24)
+	case "1":
+		return cut(1)
+	case "l":
+		return cut(len(b) - 1)
+	case "b", "3":
+		step := 1
+		if seg == "3" {
+			step = 3
+		}
+		var out [][]byte
+		for i := 0; i < len(b); i += step {
+			j := i + step
+			if j > len(b) {
+				j = len(b)
+			}
+			out = append(out, b[i:j])
+		}
+		return out
+	}
+	return [][]byte{b}
 }
 
 // Value returns the op's value bytes.
